@@ -262,6 +262,9 @@ class Check:
     def finish(self) -> int:
         EVIDENCE.mkdir(exist_ok=True)
         REPLAYS.mkdir(exist_ok=True)
+        if LOST_JOBS:
+            # a process that runs the real code died or hung: nothing is known about those jobs, which is not "held"
+            self.oblige(f"the runner processes ran every job ({len(LOST_JOBS)} lost)", False, json.dumps(LOST_JOBS[:3], default=str)[:3000])
         failed = [(n, d) for (n, ok, d) in self.obligations if not ok]
         # A broken obligation without a concrete failing input is still a violation.
         if failed and not self.violations:
@@ -398,6 +401,14 @@ def run_cases(chk: Check, name: str, prelude: str, case_type: str, case_terms: l
     return sorted(failing)
 
 
+LOST_JOBS: list[dict] = []      # jobs a runner process could not complete (reported by Check.finish)
+
+
+def note_lost(job: dict, result: dict):
+    if "runner_error" in result:
+        LOST_JOBS.append({"grammar": str(job.get("grammar"))[:500], "error": str(result["runner_error"])[-400:]})
+
+
 def run_parsers(jobs: list[dict], chunk: int = 40, timeout: int = 600) -> list[dict]:
     """Run harness/parser_runner.py in child processes (time/memory limited) over the jobs."""
     from concurrent.futures import ThreadPoolExecutor
@@ -420,6 +431,10 @@ def run_parsers(jobs: list[dict], chunk: int = 40, timeout: int = 600) -> list[d
     parts = [jobs[i:i + chunk] for i in range(0, len(jobs), chunk)]
     out: list[dict] = []
     with ThreadPoolExecutor(max_workers=8) as ex:
-        for r in ex.map(one, parts):
+        for part, r in zip(parts, ex.map(one, parts)):
+            if len(part) > 1 and any("runner_error" in x for x in r):
+                r = [one([job])[0] for job in part]      # the runner died on one job: do not lose the others
+            for job, x in zip(part, r):
+                note_lost(job, x)
             out += r
     return out
